@@ -12,7 +12,9 @@ import (
 	"verifharness/fw"
 )
 
-func c24N(text, num string) c24Lit { return c24Lit{Text: text, WantNum: num, HasWant: true, Cat: "int"} }
+func c24N(text, num string) c24Lit {
+	return c24Lit{Text: text, WantNum: num, HasWant: true, Cat: "int"}
+}
 func c24F(cat, text, num string) c24Lit {
 	return c24Lit{Text: text, WantNum: num, HasWant: true, Cat: cat}
 }
@@ -22,7 +24,9 @@ func c24S(text, val string) c24Lit {
 func c24A(cat, text, arr string) c24Lit {
 	return c24Lit{Text: text, WantArr: arr, HasWant: true, Cat: cat}
 }
-func c24T(cat, text string, feats ...string) c24Lit { return c24Lit{Text: text, Cat: cat, Feats: feats} }
+func c24T(cat, text string, feats ...string) c24Lit {
+	return c24Lit{Text: text, Cat: cat, Feats: feats}
+}
 
 func c24Pow5Canon(neg bool, mant int64, exp2 int64) string {
 	return c24CanonBin(neg, big.NewInt(mant), exp2)
@@ -139,7 +143,9 @@ var c24Directed = []func() []c24Lit{
 			c24S(`"\." "\""`, `"`), c24S(`"\.@ @@"`, "@")}
 	},
 	// strings: the same across two strings of one document (context-dependent)
-	func() []c24Lit { return []c24Lit{c24S(`"\.@@ @@"`, ""), c24S(`"\.@@ @@"`, ""), c24S(`"\.## b##"`, "b"), c24S(`"\.Q Q"`, "")} },
+	func() []c24Lit {
+		return []c24Lit{c24S(`"\.@@ @@"`, ""), c24S(`"\.@@ @@"`, ""), c24S(`"\.## b##"`, "b"), c24S(`"\.Q Q"`, "")}
+	},
 	// \[hex] escapes that name no character, and spellings outside the grammar
 	func() []c24Lit {
 		out := []c24Lit{c24T("str", `"\[d800]"`), c24T("str", `"\[dfff]"`), c24T("str", `"\[110000]"`), c24T("str", `"\[ffffffff]"`), c24T("str", `"\[100000000]"`)}
